@@ -172,7 +172,7 @@ func init() {
 			"out-of-range system-common arguments only need a well-formed message (statement)",
 			"loopback is observed through drivers/testdrv + midi.ListenTo with all listen options enabled",
 		},
-		Require: []string{"ctor_points", "loopback_deliveries", "accessor_calls", "out_of_range_points", "concurrent_ctor_points", "nil_pattern_calls", "conversations_with_replies_to_replies", "loopback_repeated_deliveries", "several_loopback_sessions", "appends_to_returned_messages", "kept_deliveries_rechecked", "loopback_sends_to_a_listener_without_options", "loopback_first_message_for_a_new_listener_on_the_same_port"},
+		Require: []string{"ctor_points", "loopback_deliveries", "accessor_calls", "out_of_range_points", "concurrent_ctor_points", "nil_pattern_calls", "conversations_with_replies_to_replies", "loopback_repeated_deliveries", "several_loopback_sessions", "appends_to_returned_messages", "kept_deliveries_rechecked", "loopback_sends_to_a_listener_without_options", "loopback_first_message_for_a_new_listener_on_the_same_port", "loopback_messages_behind_a_cut_off_message_of_the_same_status"},
 		Run:     runC07,
 	})
 }
@@ -212,6 +212,7 @@ func runC07(c *mon.Ctx) {
 	// a listener that asked for nothing special (no sysex, no timing clock, no active sensing): none of these options
 	// concerns a channel voice or system common message, they all arrive just the same
 	lpPlain := newLoop()
+	lpRe := newLoop(midi.UseSysEx(), midi.UseTimeCode(), midi.UseActiveSense())
 	plainN := 0
 	loopN := 0
 
@@ -246,10 +247,25 @@ func runC07(c *mon.Ctx) {
 		}
 		c.Count("loopback_repeated_deliveries", 1)
 		// now and then the program starts its listener anew (same driver, same port), and the same message is the first one for it
+		// a message that was cut off on the wire (status and first data byte only) is abandoned when the next status byte
+		// arrives: the message behind it, with the same status, arrives whole
+		if len(m) == 3 && m[0] < 0xF0 && loopN%24 == 11 {
+			lpRe.got = lpRe.got[:0]
+			lpRe.snd(m[:2])
+			got = lpRe.roundTrip(m)
+			c.Count("loopback_sends", 2)
+			c.Count("loopback_messages_behind_a_cut_off_message_of_the_same_status", 1)
+			if len(got) != 1 || !bytes.Equal(got[0], m) {
+				c.Violation("loopback-behind-cut-off-message:"+name, fmt.Sprintf("%s%v sent behind the first two bytes of the same message (cut off on the wire) arrived as %v", name, args, mon.HexList(toBytes(got))), args, mon.Hex(m), mon.HexList(toBytes(got)))
+				return
+			}
+		}
+		// (a port of its own: the session of lp above stays one long session of hundreds of thousands of messages)
 		if loopN++; loopN%24 == 0 {
-			lp.relisten()
-			got = lp.roundTrip(m)
-			c.Count("loopback_sends", 1)
+			lpRe.roundTrip(m)
+			lpRe.relisten()
+			got = lpRe.roundTrip(m)
+			c.Count("loopback_sends", 2)
 			c.Count("loopback_first_message_for_a_new_listener_on_the_same_port", 1)
 			if len(got) != 1 || !bytes.Equal(got[0], m) {
 				c.Violation("loopback-new-listener:"+name, fmt.Sprintf("%s%v sent as the first message for a new listener on the same port (the previous listener had got the same message last) arrived as %v", name, args, mon.HexList(toBytes(got))), args, mon.Hex(m), mon.HexList(toBytes(got)))
